@@ -89,6 +89,9 @@ Definition kind_eqb (a b : kind) : bool :=
 Inductive fexpr :=
   | FVar (k : N)                                  (* name            (truth value of the variable) *)
   | FCmp (op : cmpop) (k : N) (lit : val)         (* name <op> literal *)
+  | FInt (op : cmpop) (k : N) (lit : Z)           (* int(name) <op> literal       ValueError / TypeError on non-numbers *)
+  | FDiv (op : cmpop) (k : N) (lit : Z)           (* 6 // name <op> literal       ZeroDivisionError / TypeError *)
+  | FLookup (k : N) (tbl : list (Z * bool))       (* {k1: b1, ...}[name]          KeyError / TypeError (unhashable) *)
   | FNot (a : fexpr)
   | FAnd (a b : fexpr)
   | FOr (a b : fexpr).
